@@ -4,6 +4,11 @@ import json, os, sys
 HERE = os.path.dirname(os.path.dirname(os.path.abspath(__file__)))
 
 CHECKS = {
+ "C05": dict(
+   technique="property-based testing with a component-wise reference oracle (reference parser + frozen irrelevance lists) over a normalize-oriented URL grammar x option sets, incl. single-option flip comparisons",
+   text="Generated URLs rich in the features the options act on (and look-alikes), plus unparseable strings, under defaults / all single and pairwise option deviations / uniform samples of the 2^9 x 3 option cube (thorough: the whole cube on a panel): host labels only deleted if whole and irrelevant, non-default port kept, path changed by at most trailing slash / index page / AMP marker as the options allow, query items only dropped if irrelevant with order kept unless sorting, fragment rule per strip_fragment, unparseable input returned unchanged; each case also compares the 10 single-option flips so that an option changes only its own component.",
+   note="Trusted base: vlib/urlref.py, vlib/lists.py (frozen copies of the documented irrelevant keys / labels / index pages / AMP markers); ural.infer_redirection for the redirection-resolved input (C15).",
+   design="§4 C05"),
  "C17": dict(
    technique="generator-knows-the-answer property-based testing: documents built from element lists (exhaustive <=2/3 elements + Hypothesis), differential str vs bytes, reference filter pipeline for links",
    text="Every document of <=2 elements over a ~110-element pool (anchors in three quoting styles with attributes, ASCII / non-ASCII separators, look-alike script tags, entities, every href kind) and random documents up to 8 elements; urls_from_html(str) == urls_from_html(utf-8 bytes) == the generator's expected href list; links_from_html compared as a list with a reference pipeline and checked for the stated post-conditions under all 8 option sets x 5 base URLs.",
